@@ -437,12 +437,35 @@ func C18(r *vf.Run) {
 	// cold start: the very first use of every kind of object in this process happens on 8 goroutines
 	// released at the same instant (lazy initialisation in the library must be safe); the same
 	// sequences are then repeated alone and compared
+	// the objects made in the cold-start phase are the first of their kinds in this process. They stay
+	// alive, and while later blocks run their instances at the same time, the first-born are busy too
+	// (withElders): whatever the library may have kept from the first instance it ever saw is then in motion
+	var elders []*c18actor
+	withElders := func(fn func()) {
+		var stop atomic.Bool
+		var wg sync.WaitGroup
+		for i, a := range elders {
+			wg.Add(1)
+			go func(i int, a *c18actor) {
+				defer wg.Done()
+				g := vf.NewRng(uint64(i)*977 + 5)
+				for n := 0; !stop.Load(); n++ {
+					kind := []int{kPrim, kAlt, kSystem, kEmitter, kROM}[n%5]
+					vf.Try(func() { a.op(kind, g) })
+				}
+			}(i, a)
+		}
+		fn()
+		stop.Store(true)
+		wg.Wait()
+	}
 	{
 		const G = 8
 		seed := r.Rand("cold").U64()
 		before := sharedDigest()
 		cold := make([]uint64, G)
 		coldActors := make([]*c18actor, G)
+		defer func() { elders = nil }()
 		vf.Parallel(G, G, func(w, i int) { // the constructors are first used concurrently as well
 			coldActors[i] = newActor(i)
 			coldActors[i].sys = new(emulator.System)
@@ -468,6 +491,7 @@ func C18(r *vf.Run) {
 			r.Eval(nKinds)
 		}
 		r.Cell("cold-start:first-use-concurrent")
+		elders = coldActors
 	}
 	actors := make([]*c18actor, maxG)
 	for i := range actors {
@@ -770,7 +794,7 @@ func C18(r *vf.Run) {
 			solo[i] = runDec(i)
 		}
 		conc := make([]uint64, G)
-		vf.Parallel(G, G, func(w, i int) { conc[i] = runDec(i) })
+		withElders(func() { vf.Parallel(G, G, func(w, i int) { conc[i] = runDec(i) }) })
 		for i := range conc {
 			if conc[i] != solo[i] {
 				r.Fail("result-differs-from-solo", fmt.Sprintf("CPU %d of %d, each running its own decimal counting loop at the same time: digest of the accumulator sequence %016x, %016x alone", i, G, conc[i], solo[i]), nil)
@@ -836,7 +860,7 @@ func C18(r *vf.Run) {
 			solo[i] = runOB(i)
 		}
 		conc := make([]uint64, G)
-		vf.Parallel(G, G, func(w, i int) { conc[i] = runOB(i) })
+		withElders(func() { vf.Parallel(G, G, func(w, i int) { conc[i] = runOB(i) }) })
 		for i := range conc {
 			if conc[i] != solo[i] {
 				r.Fail("result-differs-from-solo", fmt.Sprintf("cpualt CPU %d of %d, each with memory attached for its own code bank only and loading from unattached addresses at the same time: digest of the accumulator sequence %016x, %016x alone", i, G, conc[i], solo[i]), nil)
